@@ -105,7 +105,9 @@ def check_text(text, ap, model, rng, tags):
     got = [f for f, _ in lst]
     if got != exp:
         k = next((j for j in range(min(len(got), len(exp))) if got[j] != exp[j]), min(len(got), len(exp)))
-        out["C04"].append(("violation", f"instruction at address {4*k}: assembled {got[k] if k < len(got) else None}, documented syntax denotes {exp[k] if k < len(exp) else None}"))
+        # the exact shape of a pseudo-instruction's expansion is not mandated (only its effect, checked by C05 by execution): a first
+        # difference INSIDE such a group is a deviation from the model, a difference at a real instruction is a violation
+        out["C04"].append(("disagreement" if k in labels.get("__pseudo_positions__", ()) else "violation", f"instruction at address {4*k}: assembled {got[k] if k < len(got) else None}, documented syntax denotes {exp[k] if k < len(exp) else None}"))
     table, mem = RA.ref_layout(ap)
     gotmem = {a: v for a, v in low if v != 0}
     if gotmem != {a: v for a, v in mem.items() if v != 0}:
